@@ -367,6 +367,52 @@ func scenarioC10(r *Run) {
 			r.Fail("nil-vs-empty-external-differ/"+form, "countersignature made with %s external does not verify with the other spelling: %v", extClass(external), e)
 		}
 	}
+	// binding 1b: the SAME parent object, its signature (or payload) replaced
+	// in memory by another value of the same length - a message re-signed in
+	// place, a relay's buffer refilled: the countersignature covered the old
+	// bytes and must not verify against the new ones; with the old value back
+	// it verifies again
+	if obj, _ := libParentAt(m1, ms, path); obj != nil && t.Bool(1, 2, "c10.inplace") {
+		var field *[]byte
+		what := "signature"
+		switch p := obj.(type) {
+		case *cose.Sign1Message:
+			field = &p.Signature
+			if t.Bool(1, 3, "c10.inplace.payload") && len(p.Payload) > 0 {
+				field, what = &p.Payload, "payload"
+			}
+		case *cose.SignMessage:
+			if len(p.Payload) > 0 {
+				field, what = &p.Payload, "payload"
+			}
+		case *cose.Signature:
+			field = &p.Signature
+		case *cose.Countersignature:
+			field = &p.Signature
+		}
+		if field != nil && len(*field) > 0 {
+			old := *field
+			repl := append([]byte{}, old...)
+			repl[t.Choose(len(repl), "c10.inplace.pos")] ^= 1 << uint(t.Choose(8, "c10.inplace.bit"))
+			*field = repl
+			a2 := obj
+			if valueForm {
+				a2 = byValue(obj)
+			}
+			e := made.libVerify(r, verifier, a2, external)
+			*field = old
+			r.Check()
+			if e == nil {
+				r.Fail("countersignature-verifies-after-parent-changed-in-memory/"+pkName+"/"+form, "the parent object's %s was replaced by another value of the same length (one bit differs); the countersignature made over the old value still verifies", what)
+				return
+			}
+			if e := made.libVerify(r, verifier, arg, external); e != nil {
+				r.Fail("countersignature-does-not-verify/"+pkName+"/"+form+"/after-restoring-parent", "with the parent's %s put back, the countersignature no longer verifies: %v", what, e)
+				return
+			}
+			r.Fired("app.parent-field-replaced-in-memory")
+		}
+	}
 	// a COSE_Sign parent that is still collecting signatures: a holder whose
 	// signer has not signed yet sits in the list.  The countersignature covers
 	// the body, not the signer entries: it verifies (and can be made) all the
